@@ -3,7 +3,7 @@ From Coq Require Import List ZArith.
 Import ListNotations.
 From Gen Require Import SelGen.
 From Model Require Import Key Sel GFI GFIEdit Derived.
-From Proofs Require Import GFIBase GFIRef GFIWf GFIConsistent GFIProject GFISim GFIGen GFIEditProofs GFIEditChoices GFIDerived GFIDerived2 GFICombinators.
+From Proofs Require Import GFIBase GFIRef GFIWf GFIConsistent GFIProject GFISim GFIGen GFIEditProofs GFIEditChoices GFIDerived GFIDerived2 GFICombinators GFIIndexEdit.
 Open Scope Z_scope.
 
 Theorem C11_vmap_trace_is_elementwise : forall axes g t,
@@ -52,6 +52,21 @@ Theorem C11_repeat_is_n_copies : forall n g t,
 Proof. exact repeat_is_n_copies. Qed.
 Print Assumptions C11_repeat_is_n_copies.
 
+(* an IndexRequest (arguments unchanged) edits element i alone: the result is again an elementwise trace, the other
+   elements are the old ones, the weight is the score change, the backward request addresses the same index *)
+Theorem C11_index_edit_touches_one_element : forall axes g k t idx r tg t' w b,
+  wfg g -> plain r -> wft (GVmap axes g) t ->
+  edit (GVmap axes g) k t (RIndex idx r) (t_args t) tg = Ok (t', w, b) ->
+  exists inner i told tnew wi bi,
+    t = TVmap inner (t_args t) /\ (0 <= idx < Z.of_nat (length inner)) /\ i = Z.to_nat idx /\
+    nth_error inner i = Some told /\
+    edit g k told r (slice_args axes (t_args t) i) tg = Ok (tnew, wi, bi) /\
+    t' = TVmap (replace_nth inner i tnew) (t_args t) /\ b = RIndex idx bi /\
+    wft (GVmap axes g) t' /\ w = t_score t' - t_score t /\
+    (forall j, j <> i -> nth_error (replace_nth inner i tnew) j = nth_error inner j).
+Proof. exact vmap_index_edit. Qed.
+Print Assumptions C11_index_edit_touches_one_element.
+
 (* ---- non-vacuity: concrete non-trivial programs and traces meeting the hypotheses above (proofs/GFIWitness.v) ---- *)
 From Proofs Require Import GFIWitness.
 Example C11_hypotheses_met :
@@ -59,3 +74,10 @@ Example C11_hypotheses_met :
   (let t := tr_of (g_repeat 3 ex_step 1) [VZ 2] in wft (g_repeat 3 ex_step (length (t_args t))) t /\ length (t_choices t) = 3%nat).
 Proof. exact (conj ex_vmap_wft ex_repeat_wft). Qed.
 Print Assumptions C11_hypotheses_met.
+
+Example C11_index_edit_hypotheses_met :
+  wft ex_vmap (tr_of ex_vmap ex_vmap_a) /\
+  exists t' w b, edit ex_vmap ex_k2 (tr_of ex_vmap ex_vmap_a) (RIndex 1 (RUpdate [([KS 0%nat], VZ 9)])) (t_args (tr_of ex_vmap ex_vmap_a)) [TgLeaf false; TgLeaf false]
+                 = Ok (t', w, b) /\ t' <> tr_of ex_vmap ex_vmap_a /\ w <> 0.
+Proof. exact (conj (proj1 ex_vmap_wft) ex_vmap_index_edit_succeeds). Qed.
+Print Assumptions C11_index_edit_hypotheses_met.
